@@ -18,7 +18,7 @@ from .. import observe as ob
 from ..gtext import rc
 
 PROP = "C14"
-RUNS = {"quick": 4000, "thorough": 300000}
+RUNS = {"quick": 4000, "thorough": 400000}
 WALL = {"quick": 280, "thorough": 3500}
 RULE = ("one run = shaped GFA1 graph (match-only / '*' overlaps) + scheduled delivery + optional "
         "mutations + merge_linear_paths twice; distinct = distinct (end-graph digest, order) pairs")
